@@ -16,9 +16,17 @@ macro_rules! su_harness {
         #[cfg_attr(kani, kani::stub(<rust_decimal::Decimal as core::fmt::Display>::fmt, crate::kani_model::fmtm::dec_display))]
         #[cfg_attr(kani, kani::stub(crate::portfolio::model::affiliate::Affiliate::from_strep,
                      crate::portfolio::model::affiliate::kani_harness::from_strep_stub))]
+        #[cfg_attr(kani, kani::stub(crate::util::date::today_local, far_future_today))]
         $(#[cfg_attr(kani, $m)])*
         pub fn $name() $body
     };
+}
+
+// "today" far after every date used (the real today_local reaches chrono's
+// system clock, which trips a kani-compiler ICE; natively the real clock is
+// years after 2020 as well).
+fn far_future_today() -> time::Date {
+    date_y(2030, 1)
 }
 
 fn st(bal: i64, acb: i64) -> Rc<crate::portfolio::PortfolioSecurityStatus> {
@@ -97,5 +105,34 @@ su_harness! {
             _ => assert!(false, "summary row is not a Buy"),
         }
         core::mem::forget(txs); core::mem::forget(deltas); core::mem::forget(warns);
+    }
+}
+
+// The whole summary of one affiliate whose last summarised row is a split:
+// the opening Buy must carry the post-split balance and the split's date.
+su_harness! {
+    #[kani::unwind(6)]
+    fn c10_summary_after_split_uses_post_split_balance() {
+        let bal = any_in(1, 15); let acb = any_in(0, 1000);
+        let a = any_in(1, 100); let g = any_in(1, 100);
+        let b = a + g;              // the split settles after the buy
+        let s = b + any_in(0, 50);  // summary date at or after the split
+        let deltas = vec![
+            dl(simple_buy(aff(0), date(a), 0), (0, 0), (bal, acb), None),
+            dl(tx(aff(0), date(b), 1, split(pos(2, 0), pos(1, 0), false)), (bal, acb), (2 * bal, acb), None),
+        ];
+        let (txs, warns) = make_summary_txs(date(s), &deltas, false);
+        vcover!("summarised");
+        assert!(txs.len() == 1);
+        assert!(txs[0].affiliate == aff(0));
+        assert!(txs[0].settlement_date == date(b));
+        match &txs[0].action_specifics {
+            crate::portfolio::TxActionSpecifics::Buy(bs) => {
+                assert!(*bs.shares == dec(2 * bal, 0), "summary does not carry the post-split balance");
+                assert!(*bs.amount_per_share == logged_div(0, dec(acb, 2), dec(2 * bal, 0)));
+            }
+            _ => assert!(false, "summary row is not a Buy"),
+        }
+        core::mem::forget(txs); core::mem::forget(warns); core::mem::forget(deltas);
     }
 }
